@@ -171,6 +171,111 @@ fn rand_op(rng: &mut Rng, names: &[String], attrs: &[String]) -> Op {
     }
 }
 
+/// mixed histories: parse some documents, edit the tree by hand, extend with further documents
+pub fn run_mixed(ctx: &mut Ctx, hist: &mut Hist) -> i64 {
+    let mut rng = ctx.rng.fork();
+    let mut fails: Vec<J> = vec![];
+    let mut evaluations = 0i64;
+        use crate::xml::{gen_doc, write_doc, GenCfg, Node, Style};
+        let evals = vec![
+            Eval { label: "mixed", func: "ev_mixed".into(), role: "corr" },
+            Eval { label: "mixed_bytes", func: "ev_mixed_bytes".into(), role: "corr" },
+            Eval { label: "mixed_admits", func: "or_mixed_admits".into(), role: "oracle" },
+            Eval { label: "mixed_hyp", func: "mixed_hyp".into(), role: "hyp" },
+        ];
+        let imports = "From XSG.Model Require Import Strings Necessity Element Parser Dom Render Ops.\nFrom XSG.Corr Require Import Common Oracles CoreCorr OpsCorr.\nFrom Coq Require Import String Uint63.";
+        let mut sh2 = Shards::new(&ctx.out, "mixed", imports, "mixedcase", evals, "show_mixed", 150);
+        let n_mixed = if ctx.thorough { 12000 } else { 1200 };
+        let cfg = RCfg::default();
+        for i in 0..n_mixed {
+            log::set_max_level(if i % 2 == 0 { log::LevelFilter::Trace } else { log::LevelFilter::Off });
+            let names = ["r", "p", "x", "y", "z"];
+            let attrs = ["k", "v"];
+            let mut g = GenCfg::basic(&names, &attrs);
+            g.max_depth = 3;
+            g.max_kids = 4;
+            g.max_nodes = rng.range(3, 12);
+            g.p_misc = 30;
+            let ser = |d: &Vec<Node>, rng: &mut Rng| -> Vec<u8> {
+                let mut st = Style::new(rng.fork());
+                write_doc(d, &mut st).into_bytes()
+            };
+            let init_docs: Vec<Vec<Node>> = (0..rng.range(1, 2)).map(|_| gen_doc(&mut rng, &g, "r")).collect();
+            let more_docs: Vec<Vec<Node>> = (0..rng.range(1, 2)).map(|_| gen_doc(&mut rng, &g, "r")).collect();
+            let init_bytes: Vec<Vec<u8>> = init_docs.iter().map(|d| ser(d, &mut rng)).collect();
+            let more_bytes: Vec<Vec<u8>> = more_docs.iter().map(|d| ser(d, &mut rng)).collect();
+            let onames = sv(&["p", "x", "y", "z", "w"]);
+            let oattrs = sv(&["k", "v", "u"]);
+            let ops: Vec<Op> = (0..rng.range(1, 5)).map(|_| rand_op(&mut rng, &onames, &oattrs)).collect();
+            let mut tab = ErrTab::default();
+            let init_evs: Vec<Vec<Ev>> = init_bytes.iter().map(|b| record(b, &cfg, &mut tab)).collect();
+            let more_evs: Vec<Vec<Ev>> = more_bytes.iter().map(|b| record(b, &cfg, &mut tab)).collect();
+            let res = catch_unwind(AssertUnwindSafe(|| {
+                let mut cur: Option<E> = None;
+                for b in &init_bytes {
+                    cur = Some(parse_one(b, &cfg, cur.take())?);
+                }
+                let mut root = cur.unwrap();
+                for o in &ops {
+                    let _ = apply(&mut root, o);
+                }
+                // rendering in between must not matter
+                let _ = root.to_serde_struct(&xml_schema_generator::Options::quick_xml_de());
+                for b in &more_bytes {
+                    root = parse_one(b, &cfg, Some(root))?;
+                }
+                Ok::<E, xml_schema_generator::ParserError>(root)
+            }));
+            let descr_ops = J::A(ops.iter().map(|o| json::s(format!("{:?}", o))).collect());
+            let result = match res {
+                Err(p) => ImplResult::Other(format!("panic: {}", panic_msg(&p))),
+                Ok(Err(e)) => classify(e, &mut tab),
+                Ok(Ok(e)) => match tree_of(&e) {
+                    Ok(t) => ImplResult::Tree(t, e),
+                    Err(m) => ImplResult::Other(format!("cannot read Debug output: {}", m)),
+                },
+            };
+            if let ImplResult::Other(m) = &result {
+                fails.push(json::obj(vec![("check", json::s("mixed-panic")), ("ops", descr_ops.clone()), ("what", json::s(m)), ("documents", J::A(init_bytes.iter().chain(more_bytes.iter()).map(|b| json::bytes(b)).collect()))]));
+            }
+            let it = &mut sh2.intern;
+            let mut rend = vec![];
+            if let ImplResult::Tree(_, e) = &result {
+                let o = Opts::quick_xml().sorted(rng.chance(1, 2));
+                let oc = o.coq(it);
+                match render(e, &o) {
+                    Ok(s) => rend.push(format!("({}, {}%uint63, {})", oc, hash63(&s), match crate::outp::parse_output(&s) {
+                        Ok(ps) => format!("Some {}", crate::outp::coq_pstructs(&ps, it)),
+                        Err(_) => "None".into(),
+                    })),
+                    Err(m) => fails.push(json::obj(vec![("check", json::s("render-panic")), ("ops", descr_ops.clone()), ("what", json::s(m))])),
+                }
+            }
+            let term = format!(
+                "Build_mixedcase [{}] {} [{}] [{}] {} [{}]",
+                init_evs.iter().map(|e| coq_events(e, it)).collect::<Vec<_>>().join("; "),
+                coq_list(&ops, |o| coq_op(o, it)),
+                more_docs.iter().map(|d| coq_doc(d, it)).collect::<Vec<_>>().join("; "),
+                more_evs.iter().map(|e| coq_events(e, it)).collect::<Vec<_>>().join("; "),
+                coq_iresult(&result, it),
+                rend.join("; ")
+            );
+            let d = json::obj(vec![
+                ("kind", json::s("mixed")),
+                ("parsed_first", J::A(init_bytes.iter().map(|b| json::bytes(b)).collect())),
+                ("ops", descr_ops),
+                ("documents", J::A(more_bytes.iter().map(|b| json::bytes(b)).collect())),
+                ("impl", result.json()),
+            ]);
+            hist.add("mixed");
+            sh2.push(term, d);
+            evaluations += 1;
+        }
+        ctx.shards.extend(sh2.finish());
+    ctx.impl_failures.extend(fails);
+    evaluations
+}
+
 pub fn run(ctx: &mut Ctx) {
     let evals = vec![
         Eval { label: "states", func: "ev_ops_states".into(), role: "corr" },
@@ -259,6 +364,7 @@ pub fn run(ctx: &mut Ctx) {
         seqs.push((names[0].clone(), ra, ops, "random"));
     }
     for (rname, rattrs, ops, kind) in seqs {
+        log::set_max_level(if ops.len() % 2 == 0 { log::LevelFilter::Trace } else { log::LevelFilter::Off });
         let res = catch_unwind(AssertUnwindSafe(|| {
             let mut root: E = Element::new(rname.clone(), rattrs.clone());
             let mut states = vec![];
@@ -333,6 +439,7 @@ pub fn run(ctx: &mut Ctx) {
         sh.push(term, d);
         evaluations += 1;
     }
+    evaluations += run_mixed(ctx, &mut hist);
     if samples.is_empty() {
         samples.push(json::s("(see shards)"));
     }
